@@ -543,8 +543,8 @@ PROPS = {
     },
     "C09": {
         "lean_modules": ["Dbg.Props.C09"],
-        "theorems": ["CompressGraph.C09_kmers_cover", "CompressGraph.C09_no_dangling", "CompressGraph.buildNode_kmers", "CompressGraph.buildNode_payload", "CompressGraph.fixExts_exact", "CompressGraph.extendNode_chain", "CompressGraph.C09_censored_excluded", "CompressGraph.extendNode_ok", "CompressGraph.buildNode_ok", "CompressGraph.compressLoop_ok"],
-        "partial": ["that compress_graph returns (does not panic) on every graph satisfying the node-level invariant, and that its paths are MAXIMAL (the connected components of the surviving good links; idempotence; equality with compressing the k-mer table directly): executable predicates evaluated on the crate's result (components by label propagation against the k-mer table reconstructed from the surviving nodes). The theorems listed are conditional on compress_graph returning"],
+        "theorems": ["CompressGraph.C09_char", "CompressGraph.C09_char_of_built", "CompressGraph.rinv_fixExts", "CompressGraph.glinkV_sym", "CompressGraph.extendNode_refines", "CompressGraph.static_ok", "CompressGraph.palEnd_of_compress", "CompressGraph.C09_kmers_cover", "CompressGraph.C09_no_dangling", "CompressGraph.buildNode_kmers", "CompressGraph.buildNode_payload", "CompressGraph.fixExts_exact", "CompressGraph.extendNode_chain", "CompressGraph.C09_censored_excluded", "CompressGraph.extendNode_ok", "CompressGraph.buildNode_ok", "CompressGraph.compressLoop_ok"],
+        "partial": ["idempotence (re-compressing a compressed graph changes nothing but order/orientation) and equality of compressing the one-k-mer-per-node graph with compressing the table directly need the invariant GInv for the RESULT of compress_graph and the identification of node-level good links with k-mer-level good links: executable predicates on the crate's result (components by label propagation against the k-mer table reconstructed from the surviving nodes)"],
         "n_quick": 2500, "n_thorough": 150000,
         "nontrivial": lambda toks, impl: impl not in ("panic", "-") and toks[8].count(",") >= 2, "tags": _c09_tags,
         "rule": "requests `recompress K gstranded stranded join reduce censor nodes` on graphs obtained from the real pipeline at three compression "
